@@ -437,7 +437,8 @@ def gen_B(ch: Chooser, amods):
 
 
 HISTORIES = ["plain", "plain", "plain", "rebuild-display", "first-without-externalize", "json-missing", "json-truncated",
-             "json-html", "json-wrong-shape", "dir-missing", "remote-404", "remote-refused"]
+             "json-html", "json-wrong-shape", "dir-missing", "remote-404", "remote-refused",
+             "json-null", "json-no-modules", "json-not-utf8"]
 NAMING = ["relative", "relative-slash", "absolute", "remote", "remote-slash", "remote-root", "remote-deep"]
 
 
@@ -487,7 +488,8 @@ def finish_case(amods, bfiles, refs, neg, inside, kinds, history, naming, a_disp
             "pub_vars": sorted(n for n, v in ex.items() if v[0] == "var"),
             "pub_absints": sorted(n for n, v in ex.items() if v[0] == "absint"),
         }
-    damaged = history in ("json-missing", "json-truncated", "json-html", "json-wrong-shape", "dir-missing", "remote-404", "remote-refused")
+    damaged = history in ("json-missing", "json-truncated", "json-html", "json-wrong-shape", "dir-missing", "remote-404", "remote-refused",
+                          "json-null", "json-no-modules", "json-not-utf8")
     public_targets = []
     for i, m in enumerate(amods):
         f, fr = target_of("module", m, None)
@@ -651,6 +653,12 @@ def check(case) -> Result:
                 mj.write_text("<html><body><h1>It works!</h1></body></html>\n")
             elif history == "json-wrong-shape":
                 mj.write_text(json.dumps({"ford-metadata": {"version": "x"}, "modules": [{"name": "amod0"}, 3, None]}))
+            elif history == "json-null":
+                mj.write_text("null\n")
+            elif history == "json-no-modules":
+                mj.write_text(json.dumps({"ford-metadata": {"version": "x"}}))
+            elif history == "json-not-utf8":
+                mj.write_bytes(b'{"ford-metadata": {"version": "\xe9\xff"}, "modules": []}')
             elif history == "dir-missing":
                 shutil.rmtree(aout)
             # ---- how B names A
